@@ -8,6 +8,7 @@ CONSTANTS
   Small = FALSE
   Avoid = TRUE
   SimK = 1
+  AccW = TRUE
   Acts = {"oset", "rebind", "nest", "ctor", "batch"}
 CONSTRAINT LevelBound
 INVARIANT Conforms
